@@ -78,24 +78,30 @@ def gen_cases(run):
             cases.append(Case("collections", pre, qs, {"kind": "observations", "container": CONT[cont]}))
             dist["kinds"]["observations"] += 1
             dist["containers"][CONT[cont]] += 3; dist["members"] += 3 * n
-    # VERY LARGE collections (more than 65 536 members), one per kind in the Vec container (and one more container in the thorough
-    # tier): counts that are kept in a narrow integer only show here
+    # VERY LARGE collections (more than 65 536 members) in the Vec container (all four containers in the thorough tier). A count kept
+    # in a narrow integer only shows when THAT count passes 65 536, so every counted class gets a collection it dominates (99 % of
+    # the members): valid / invalid assumptions, inferable / inverse-inferable / non-inferable inferences, observations that
+    # meet / miss the target.
+    def skew(dom, others):
+        return dom if rng.random() < 0.99 else rng.choice(others)
     for cont in ((1, 2, 0, 3) if run.thorough else (1,)):
-        n = 70000 + rng.randrange(0, 50)
-        ids = list(range(1, n + 1))
-        pre = [0, cont, n]
-        for i in ids: pre += [i, rng.choice([0, 1, 100, 101])]
-        cases.append(Case("collections", pre, [(0, 0) + tuple(rng.choice([0, 1]) for _ in range(8))], {"kind": "assumptions", "container": CONT[cont], "huge": True}))
-        pre = [1, cont, n]
-        for i in ids:
-            thr = 0.5; obs = rng.choice([0.25, 0.75, 0.75]); tgt = 1.0; eff = rng.choice([1.0, 1.0, 2.0])
-            pre += [i, fb(obs), fb(thr), fb(eff), fb(tgt)]
-        cases.append(Case("collections", pre, [], {"kind": "inferences", "container": CONT[cont], "huge": True}))
-        pre = [2, cont, n]
-        for i in ids:
-            pre += [i, fb(rng.choice([0.25, 0.75])), fb(rng.choice([1.0, 2.0]))]
-        cases.append(Case("collections", pre, [(fb(0.5), fb(1.0))], {"kind": "observations", "container": CONT[cont], "huge": True}))
-        dist["collections_above_65536_members"] = dist.get("collections_above_65536_members", 0) + 3
+        for dom in (100, 101):
+            n = 66300 + rng.randrange(0, 50); pre = [0, cont, n]
+            for i in range(1, n + 1): pre += [i, skew(dom, [0, 1, 100, 101])]
+            cases.append(Case("collections", pre, [(0, 0) + tuple(rng.choice([0, 1]) for _ in range(8))], {"kind": "assumptions", "container": CONT[cont], "huge": True}))
+        for dom in ((0.75, 1.0), (0.25, 1.0), (0.75, 2.0)):
+            n = 66300 + rng.randrange(0, 50); pre = [1, cont, n]
+            for i in range(1, n + 1):
+                obs, eff = skew(dom, [(0.75, 1.0), (0.25, 1.0), (0.75, 2.0), (0.25, 2.0)])
+                pre += [i, fb(obs), fb(0.5), fb(eff), fb(1.0)]
+            cases.append(Case("collections", pre, [], {"kind": "inferences", "container": CONT[cont], "huge": True}))
+        for dom in ((0.75, 1.0), (0.25, 2.0)):
+            n = 66300 + rng.randrange(0, 50); pre = [2, cont, n]
+            for i in range(1, n + 1):
+                obs, eff = skew(dom, [(0.75, 1.0), (0.25, 1.0), (0.75, 2.0), (0.25, 2.0)])
+                pre += [i, fb(obs), fb(eff)]
+            cases.append(Case("collections", pre, [(fb(0.5), fb(1.0))], {"kind": "observations", "container": CONT[cont], "huge": True}))
+        dist["collections_above_65536_members"] = dist.get("collections_above_65536_members", 0) + 7
     return cases, dist
 
 
